@@ -57,6 +57,7 @@ static struct {
     struct vs_options opt;
     int64_t clock_ns;
     int spurious_left;
+    char note[64];                /* harness annotation appended to a deadlock message (which phase of the script the owner is in) */
     long cell[VS_NCELL];
     uint64_t new_states;
     long fseq;
@@ -239,7 +240,7 @@ static void sched(VThread *me) {
             o += snprintf(buf + o, sizeof buf - o, " t%d:%s", i, st);
             if (t->state == ST_JOIN) o += snprintf(buf + o, sizeof buf - o, "(t%d)", t->target);
         }
-        fatal_outcome(VS_OUT_DEADLOCK, "deadlock: no enabled thread;%s", buf);
+        fatal_outcome(VS_OUT_DEADLOCK, "deadlock: no enabled thread;%s%s%s", buf, G.note[0] ? " note=" : "", G.note);
     }
     int pick = 0;
     if (n > 1) {
@@ -297,6 +298,7 @@ void vs_block_until(int (*pred)(void *), void *arg) {
     me->state = ST_PRED; me->pred = pred; me->predarg = arg;
     sched(me);
 }
+void vs_note(const char *s) { snprintf(G.note, sizeof G.note, "%s", s ? s : ""); }
 uint64_t vs_new_states(void) { uint64_t v = G.new_states; G.new_states = 0; return v; }
 
 void vs_begin(struct vs_slot *slot, const struct vs_options *opt) {
@@ -304,7 +306,7 @@ void vs_begin(struct vs_slot *slot, const struct vs_options *opt) {
     memset(G.cell, 0, sizeof G.cell);
     G.slot = slot; G.opt = *opt;
     if (G.opt.horizon <= 0) G.opt.horizon = 20000;
-    G.spurious_left = G.opt.spurious;
+    G.spurious_left = G.opt.spurious; G.note[0] = 0;
     G.clock_ns = 1700000000LL * 1000000000LL;
     slot->rec.n = 0; slot->nev = 0; slot->outcome = VS_OUT_RUNNING; slot->msg[0] = 0; slot->steps = 0; slot->parked_any = 0;
     G.T[0].id = 0; G.T[0].state = ST_READY; G.T[0].real = pthread_self();
